@@ -41,6 +41,8 @@ def main():
                         ctx.note("stopped_at_budget")
                         break
                     run_one(mod, ctx, case, core)
+        if hasattr(mod, "finalize"):
+            mod.finalize(ctx)
         result.update(ctx.dump())
         result["known"] = known
         result["status"] = "ok"
